@@ -46,7 +46,7 @@ func ruleCloseFlushes(c *Check, p *Program, rule string) {
 	// the error of CloseW is returned
 	ret := false
 	allInstrs(fn, func(in ssa.Instruction) {
-		if r, ok := in.(*ssa.Return); ok && len(r.Results) == 1 && r.Results[0] == closeW.Value() {
+		if r, ok := in.(*ssa.Return); ok && len(r.Results) == 1 && (r.Results[0] == closeW.Value() || derivesFromValue(r.Results[0], closeW.Value())) {
 			ret = true
 		}
 	})
@@ -72,6 +72,22 @@ type poolOutcome struct {
 func poolOutcomes(ci ssa.CallInstruction, sets map[*ssa.BasicBlock]vset, perEdge map[cfgEdge]vset) []poolOutcome {
 	recv := ci.Common().Args[0]
 	switch x := recv.(type) {
+	case *ssa.UnOp:
+		// a pool pointer looked up in a constant table indexed by the tracked word: blockPools[b]
+		if ia, ok := x.X.(*ssa.IndexAddr); ok && x.Op == token.MUL {
+			if g, isG := ia.X.(*ssa.Global); isG {
+				tbl := globalPointerTable(g)
+				var out []poolOutcome
+				for _, iv := range sets[ci.Block()] {
+					for v := iv.lo; v <= iv.hi && v-iv.lo < 64; v++ {
+						if name, has := tbl[v]; has {
+							out = append(out, poolOutcome{vset{{v, v}}, name})
+						}
+					}
+				}
+				return out
+			}
+		}
 	case *ssa.Global:
 		return []poolOutcome{{sets[ci.Block()], x.Name()}}
 	case *ssa.Phi:
@@ -430,6 +446,36 @@ func ruleRawFlagPairing(c *Check, p *Program, rule string) {
 		return
 	}
 	src := fn.Params[2]
+	// the function may have been split: the stores live in a helper that receives the source
+	{
+		has := func(g *ssa.Function) bool {
+			found := false
+			allInstrs(g, func(in ssa.Instruction) {
+				if st, ok := in.(*ssa.Store); ok && lastField(st.Addr) == "FrameDataBlock.Data" {
+					found = true
+				}
+			})
+			return found
+		}
+		if !has(fn) {
+			for _, g := range deepFuncs(fn, 2)[1:] {
+				if !has(g) {
+					continue
+				}
+				for _, ci := range callSitesOf(g) {
+					if ci.Parent() != fn {
+						continue
+					}
+					for i, arg := range ci.Common().Args {
+						if i < len(g.Params) && derivesFromValue(arg, src) && isSliceType(arg.Type()) {
+							fn, src = g, g.Params[i]
+						}
+					}
+				}
+				break
+			}
+		}
+	}
 	type site struct {
 		blk     *ssa.BasicBlock
 		fromSrc bool
@@ -565,8 +611,8 @@ func ruleChecksumCoverage(c *Check, p *Program, rule string) {
 		}
 	}
 	okSrc := false
-	allInstrs(cp, func(in ssa.Instruction) {
-		if st, ok := in.(*ssa.Store); ok && lastField(st.Addr) == "FrameDataBlock.src" && len(cp.Params) > 2 && st.Val == cp.Params[2] && len(relAtoms(in.Block(), nil)) == 0 {
+	allInstrsDeep(cp, func(in ssa.Instruction) {
+		if st, ok := in.(*ssa.Store); ok && lastField(st.Addr) == "FrameDataBlock.src" && len(cp.Params) > 2 && derivesFromValue(st.Val, cp.Params[2]) && len(relAtoms(in.Block(), nil)) == 0 {
 			okSrc = true
 		}
 	})
@@ -907,4 +953,36 @@ func atomSaysGeq(a Atom) (ssa.Value, ssa.Value) {
 		return b.Y, b.X
 	}
 	return nil, nil
+}
+
+// globalPointerTable: for a package-level array of pointers initialised with
+// addresses of other package-level variables, the element names by index (read
+// from the stores of the package initialiser; constant propagation, nothing is run).
+func globalPointerTable(g *ssa.Global) map[uint64]string {
+	out := map[uint64]string{}
+	if g.Pkg == nil {
+		return out
+	}
+	init := g.Pkg.Func("init")
+	if init == nil {
+		return out
+	}
+	allInstrs(init, func(in ssa.Instruction) {
+		st, ok := in.(*ssa.Store)
+		if !ok {
+			return
+		}
+		ia, ok := st.Addr.(*ssa.IndexAddr)
+		if !ok || ia.X != ssa.Value(g) {
+			return
+		}
+		k, isK := constUint(ia.Index)
+		if !isK {
+			return
+		}
+		if tg, isG := st.Val.(*ssa.Global); isG {
+			out[k] = tg.Name()
+		}
+	})
+	return out
 }
